@@ -213,7 +213,25 @@ namespace
             uint64_t keys = 0;
             std::vector<std::string> expected_lines;
             size_t exec_base = 0; // lines executed before the last re-init belong to another geometry
+            // a second terminal of the same kind works next to the one under test: it gets the keys "ok" Enter over and over (one
+            // byte per byte of the first terminal) and must execute "ok" each time, whatever happens on the first one
+            std::unique_ptr<Term> by(xx ? make_term_xx() : make_term_c());
+            Sink by_sink;
+            by_sink.cap = 8;
+            by_sink.scr.strict = false;
+            by->start(8, 2, &by_sink, "", true);
+            size_t by_pos = 0, by_lines = 0;
+            const char by_script[3] = {'o', 'k', '\r'};
             auto feed = [&](int b) {
+                by->feed((unsigned char)by_script[by_pos]);
+                if (++by_pos == 3)
+                {
+                    by_pos = 0;
+                    by_lines++;
+                    if (by_sink.executed.size() != by_lines || by_sink.executed.back() != "ok")
+                        violate("C15/bystander", "a second terminal working next to the one under test executed %zu lines after %zu Enter keys (last: '%s')", by_sink.executed.size(), by_lines,
+                                by_sink.executed.empty() ? "" : by_sink.executed.back().c_str());
+                }
                 term->feed(b);
                 last_byte = b;
                 tr.u((uint64_t)b);
